@@ -199,7 +199,14 @@ func stringOf(v ssa.Value) (string, bool) {
 }
 
 // reqField: v is a load of the named field of *http.Request / *url.URL.
+// reqParamField: parameters of a helper of the auth middleware that are bound to a request field at its only call
+// (`requiredRoleFor(r.Method, r.URL.Path)`); filled by extractPolicy.
+var reqParamField = map[*ssa.Parameter]string{}
+
 func isReqField(v ssa.Value, field string) bool {
+	if p, ok := v.(*ssa.Parameter); ok {
+		return reqParamField[p] == field
+	}
 	u, ok := v.(*ssa.UnOp)
 	if !ok || u.Op != token.MUL {
 		return false
@@ -379,6 +386,27 @@ func (w *World) extractPolicy(r *Report) ([]policyPath, *ssa.Function) {
 	}
 	target := findInstrs(fn, callsTo(ha))[0].(*ssa.Call)
 	var paths []policyPath
+	// the role may be computed by a helper of the package from the request's method and path
+	// (`requiredRole := requiredRoleFor(r.Method, r.URL.Path)`): its decision paths are enumerated like the closure's
+	var helperPaths []policyPath
+	if hc, ok := target.Call.Args[1].(*ssa.Call); ok {
+		if g := hc.Call.StaticCallee(); g != nil && g.Pkg == fn.Pkg && len(g.Blocks) > 0 && len(hc.Call.Args) == len(g.Params) {
+			bound := true
+			for i, a := range hc.Call.Args {
+				switch {
+				case isReqField(a, "Method"):
+					reqParamField[g.Params[i]] = "Method"
+				case isReqField(a, "Path"):
+					reqParamField[g.Params[i]] = "Path"
+				default:
+					bound = false
+				}
+			}
+			if bound {
+				helperPaths = enumerateRolePaths(g)
+			}
+		}
+	}
 	var resolve func(v ssa.Value, trail []*ssa.BasicBlock, depth int) (string, bool)
 	resolve = func(v ssa.Value, trail []*ssa.BasicBlock, depth int) (string, bool) {
 		if depth > 20 {
@@ -419,6 +447,13 @@ func (w *World) extractPolicy(r *Report) ([]policyPath, *ssa.Function) {
 		trail = append(trail, b)
 		if b == target.Block() {
 			role, ok := resolve(target.Call.Args[1], trail, 0)
+			if !ok && len(helperPaths) > 0 {
+				for _, hp := range helperPaths {
+					nPaths++
+					paths = append(paths, policyPath{append(append([]literal{}, lits...), hp.lits...), hp.role})
+				}
+				return
+			}
 			if !ok {
 				role = "?"
 			}
@@ -930,10 +965,19 @@ func ruleWEBauth(w *World, r *Report) {
 					if p == nil {
 						break
 					}
-					if iff, ok := p.Instrs[len(p.Instrs)-1].(*ssa.If); ok && p.Succs[0] == d {
-						if bo, ok := iff.Cond.(*ssa.BinOp); ok && bo.Op == token.GTR {
-							if c, ok := constInt(bo.Y); ok && c == 0 {
-								okv = true
+					if iff, ok := p.Instrs[len(p.Instrs)-1].(*ssa.If); ok && len(d.Preds) == 1 {
+						// the edge into d says "the list has at least one element", in any spelling of that test
+						if bo, ok := iff.Cond.(*ssa.BinOp); ok {
+							if lc, isCall := bo.X.(*ssa.Call); isCall {
+								if bi, isB := lc.Call.Value.(*ssa.Builtin); isB && bi.Name() == "len" {
+									if c, ok := constInt(bo.Y); ok {
+										onTrue := (bo.Op == token.GTR && c == 0) || (bo.Op == token.GEQ && c == 1) || (bo.Op == token.NEQ && c == 0)
+										onFalse := (bo.Op == token.EQL && c == 0) || (bo.Op == token.LSS && c == 1) || (bo.Op == token.LEQ && c == 0)
+										if (onTrue && p.Succs[0] == d) || (onFalse && p.Succs[1] == d) {
+											okv = true
+										}
+									}
+								}
 							}
 						}
 					}
@@ -1079,6 +1123,91 @@ func ruleWEB4(w *World, r *Report) {
 		}
 		return true
 	})
+	// an alternative namespace field (anything but index_name) counts only on routes whose handler reads it. The extraction
+	// returns the fields that are PRESENT: a field honoured on a route whose handler does not know it is a decoy — the
+	// token names its own namespace there, omits index_name, and the handler falls back to its default index.
+	{
+		routePaths := func(field string) (paths []string, everywhere bool) {
+			everywhere = true
+			for _, b := range efn.Blocks {
+				for _, in := range b.Instrs {
+					fa, ok := in.(*ssa.FieldAddr)
+					if !ok {
+						continue
+					}
+					st, ok := derefStruct(fa.X.Type())
+					if !ok || reflectTag(st.Tag(fa.Field), "json") != field {
+						continue
+					}
+					// dominated by the true edge of a test of the request path against a constant?
+					guarded := false
+					for d := b; d != nil; d = d.Idom() {
+						id := d.Idom()
+						if id == nil {
+							break
+						}
+						iff, ok := id.Instrs[len(id.Instrs)-1].(*ssa.If)
+						if !ok {
+							continue
+						}
+						a, neg, okA := condAtom(iff.Cond)
+						if !okA || (a.kind != "path==" && a.kind != "prefix") {
+							continue
+						}
+						onEdge := id.Succs[0]
+						if neg {
+							onEdge = id.Succs[1]
+						}
+						if onEdge == d && len(d.Preds) == 1 {
+							guarded = true
+							paths = append(paths, a.arg)
+						}
+					}
+					if !guarded {
+						return nil, true
+					}
+					everywhere = false
+				}
+			}
+			return paths, everywhere
+		}
+		var alts []string
+		for f := range bodyFields {
+			if f != "index_name" {
+				alts = append(alts, f)
+			}
+		}
+		sort.Strings(alts)
+		for _, f := range alts {
+			paths, everywhere := routePaths(f)
+			var missing []string
+			for _, rt := range w.routes(r, "WEB-4") {
+				if rt.Handler == nil || rt.Root || rt.Method != "POST" {
+					continue
+				}
+				honoured := everywhere
+				for _, p := range paths {
+					if rt.Pattern == p || strings.HasPrefix(rt.Pattern, p) {
+						honoured = true
+					}
+				}
+				if !honoured {
+					continue
+				}
+				hf := w.SSAFunc(rt.Handler)
+				if hf == nil || !decodesBodyField(hf, f) {
+					missing = append(missing, rt.Pattern)
+				}
+			}
+			sort.Strings(missing)
+			show := missing
+			if len(show) > 6 {
+				show = append(append([]string{}, show[:6]...), fmt.Sprintf("… (%d routes)", len(missing)))
+			}
+			r.Cond(len(missing) == 0, "WEB-4", "middleware:alternative-field:"+f+":honoured-only-where-a-handler-reads-it", w.Pos(ex.Decl.Pos()), "the field is honoured only on routes whose handler decodes it",
+				"the middleware accepts the body field "+f+" as the namespace of a request on routes whose handler does not read it ("+strings.Join(show, ", ")+"): a token restricted to namespace A sends "+f+"=A, omits index_name, and a handler that falls back to a default index (POST /compile: mcp_memory) runs on an index the token was never checked against")
+		}
+	}
 	r.Cond(bodyFields["index_name"], "WEB-4", "middleware:body-field", w.Pos(ex.Decl.Pos()), "body namespace field index_name is read", "the middleware no longer reads the body field index_name")
 	// every extracted namespace is checked: the middleware loops over the result (or the result is a single string)
 	if mw := w.Func("internal/server", "Server.authMiddleware"); mw != nil {
@@ -1353,4 +1482,118 @@ func typeLabelShort(t types.Type) string {
 		return n.Obj().Name()
 	}
 	return t.String()
+}
+
+// decodesBodyField: the handler (or a function literal of it) has a local of a struct type with a field tagged json:"<field>"
+// — the type its request body is decoded into.
+func decodesBodyField(fn *ssa.Function, field string) bool {
+	var has func(t types.Type, depth int) bool
+	has = func(t types.Type, depth int) bool {
+		st, ok := derefStruct(t)
+		if !ok || depth > 3 {
+			return false
+		}
+		for i := 0; i < st.NumFields(); i++ {
+			if reflectTag(st.Tag(i), "json") == field {
+				return true
+			}
+			if st.Field(i).Embedded() && has(st.Field(i).Type(), depth+1) {
+				return true
+			}
+		}
+		return false
+	}
+	for _, f := range append([]*ssa.Function{fn}, closuresOf(fn)...) {
+		for _, b := range f.Blocks {
+			for _, in := range b.Instrs {
+				if al, ok := in.(*ssa.Alloc); ok && has(al.Type(), 0) {
+					return true
+				}
+			}
+		}
+	}
+	return false
+}
+
+// enumerateRolePaths: the acyclic paths of a role-computing helper from its entry to its returns, with the request tests
+// taken and the string constant returned on each.
+func enumerateRolePaths(g *ssa.Function) []policyPath {
+	var out []policyPath
+	var resolve func(v ssa.Value, trail []*ssa.BasicBlock, depth int) (string, bool)
+	resolve = func(v ssa.Value, trail []*ssa.BasicBlock, depth int) (string, bool) {
+		if depth > 20 {
+			return "", false
+		}
+		if s, ok := stringOf(v); ok {
+			return s, true
+		}
+		if c, ok := v.(*ssa.Const); ok && c.Value != nil && c.Value.Kind() == constant.Bool {
+			return fmt.Sprint(constant.BoolVal(c.Value)), true
+		}
+		switch x := v.(type) {
+		case *ssa.Phi:
+			b := x.Block()
+			for i := len(trail) - 1; i > 0; i-- {
+				if trail[i] == b {
+					for pi, p := range b.Preds {
+						if p == trail[i-1] {
+							return resolve(x.Edges[pi], trail[:i], depth+1)
+						}
+					}
+				}
+			}
+		case *ssa.ChangeType:
+			return resolve(x.X, trail, depth+1)
+		case *ssa.Convert:
+			return resolve(x.X, trail, depth+1)
+		}
+		return "", false
+	}
+	n := 0
+	var dfs func(b *ssa.BasicBlock, trail []*ssa.BasicBlock, lits []literal, onStack map[*ssa.BasicBlock]bool)
+	dfs = func(b *ssa.BasicBlock, trail []*ssa.BasicBlock, lits []literal, onStack map[*ssa.BasicBlock]bool) {
+		if n > 5000 || onStack[b] {
+			return
+		}
+		trail = append(trail, b)
+		term := b.Instrs[len(b.Instrs)-1]
+		if rt, ok := term.(*ssa.Return); ok {
+			role := "?"
+			if len(rt.Results) == 1 {
+				if s, ok := resolve(retVal(rt, 0), trail, 0); ok {
+					role = s
+				}
+			}
+			n++
+			out = append(out, policyPath{append([]literal{}, lits...), role})
+			return
+		}
+		onStack[b] = true
+		defer delete(onStack, b)
+		iff, isIf := term.(*ssa.If)
+		if !isIf {
+			for _, s := range b.Succs {
+				dfs(s, trail, lits, onStack)
+			}
+			return
+		}
+		if val, ok := resolve(iff.Cond, trail, 0); ok && (val == "true" || val == "false") {
+			if val == "true" {
+				dfs(b.Succs[0], trail, lits, onStack)
+			} else {
+				dfs(b.Succs[1], trail, lits, onStack)
+			}
+			return
+		}
+		a, neg, ok := condAtom(iff.Cond)
+		if !ok {
+			dfs(b.Succs[0], trail, lits, onStack)
+			dfs(b.Succs[1], trail, lits, onStack)
+			return
+		}
+		dfs(b.Succs[0], trail, append(lits, literal{a, !neg}), onStack)
+		dfs(b.Succs[1], trail, append(lits, literal{a, neg}), onStack)
+	}
+	dfs(g.Blocks[0], nil, nil, map[*ssa.BasicBlock]bool{})
+	return out
 }
